@@ -67,8 +67,15 @@ func (ch LocalCache) Fetch(
 		for _, art := range man.Contents {
 			// Use the Artifact's checksum as a key to ensure Artifacts with
 			// the same relative path (from different parent Artifacts) don't
-			// clobber each other.
-			children[art.Checksum] = art
+			// clobber each other. A file whose bytes happen to be the
+			// manifest of a directory has that directory's checksum, so the
+			// kind is part of the key: the directory's children must be
+			// fetched too.
+			key := art.Checksum
+			if art.IsDir {
+				key += "/"
+			}
+			children[key] = art
 		}
 	}
 	if len(children) == 0 {
